@@ -216,9 +216,12 @@ def mapAdd (k : Option Nat) (x : F) : CMap F → CMap F
 def pairSum (σ : Option Nat → Option F) : CMap F → Option F
   | [] => some 0
   | e :: es =>
-    match σ e.1, pairSum σ es with
-    | some s, some t => some (e.2 * s + t)
-    | _, _ => none
+    match σ e.1 with
+    | none => none
+    | some s =>
+      match pairSum σ es with
+      | none => none
+      | some t => some (e.2 * s + t)
 
 /-- the loop of `accumulate_elems`: per degree bound `Σ ρ·ξⱼ·Cⱼ`, and `Σ ξⱼ·vⱼ` -/
 def accLoop (ρ : F) : List (LComm F) → List F → List F → CMap F → F →
